@@ -86,8 +86,8 @@ def run_case(case, prefix=None):
     res = Result()
     drv = case.get("drv", "full")
     lite = drv == "lite"
-    lk = Link(drv, "full", plus=case.get("plus", True))
-    res.label("plus-chips" if case.get("plus", True) else "nonplus-chips")
+    lk = Link(drv, "full", plus=case.get("plus", True), warm=case.get("warm"))
+    res.label("plus-chips" if case.get("plus", True) else "nonplus-chips", "cold-chips" if case.get("warm") is None else "warm-chips")
     sim, med, D, X, r = lk.sim, lk.med, lk.T, lk.R, lk.tx
     sim.spi_budget = 300_000
     x = Raw(sim, X)
